@@ -8,14 +8,14 @@ The long-format reader is regular-expression based; Read.lean models each regula
 (compared with `re` itself on every run); Lemmas/Matchers.lean restates the matchers on `List Char`.
 
 * `parseLong_emit` — the whole-file theorem (any number of tiers, also none), hypotheses: `LongNum` numerals, `NoKwLong`
-  (A10: `item [`, `item[`, and the entry separator of the tier's own class), strip-invariant labels, `NameRowFree` names (single
-  line, or without the words `xmin` / `xmax`: multi-line names are read since fix A32), no `\r\n`.  NOT needed (proved harmless): labels/names that look like rows (`text = "…"`, `xmin = 5`, `name = "x"`,
+  (A10: `item [`, `item[`, and the entry separator of the tier's own class), strip-invariant labels, no `\r\n` — and NO
+  hypothesis on tier names beyond the keywords (multi-line names: fix A32; span rows searched behind the name: fix A33).  NOT needed (proved harmless): labels/names that look like rows (`text = "…"`, `xmin = 5`, `name = "x"`,
   `class = "IntervalTier"`), quotes followed by blanks and a line break, the other class's separator.
 * (a) `numAfter_written`, `textAfter_dotall`, `textAfter_dotall_tail`, `scanL_barrier`, `scanL_free` — the matchers on written rows;
   (b) `readEntry_iv`, `readEntry_pt`, `readTier_written`; (c) `split_file`; `emitLong_toList`.
 * `parseText_long_emit`, `parseText_short_emit` — through the format sniffing of `parseTextgridStr`, with `_removeBlanks`.
 * `sep_in_row_iff`, `noKwLong_of_no_bracket` — the keyword hypothesis exactly / a simple sufficient condition;
-  `parseLong_keyword_counterexample`, `parseLong_name_row_counterexample`, `parseText_short_item_counterexample`,
+  `parseLong_keyword_counterexample`, `parseText_short_item_counterexample`, the regressions `parseLong_name_newline_regression`, `parseLong_name_row_regression`,
   `#guard`s — what must be excluded.  The hypotheses are classified (property's own quantifier / enforced by the code /
   known defect with counter-example) in the docstrings of `LongNum`, `parseLong_emit`, `parseText_*_emit`.
 -/
@@ -1110,47 +1110,34 @@ theorem notMem_escape (c : Char) (l : List Char) (hc : c ≠ q) (h : c ∉ l) : 
   · exact h h1
   · exact hc h1
 
-/-- `xmin` and `xmax` of the tier header: the occurrences of these words inside the class row and inside a single-line name do
-not match, because a quote follows on the same line; a multi-line name is skipped when it does not contain the two words at all
-(`NameRowFree`; a name holding a line `xmin = 1` IS taken for the span row: `parseLong_name_row_counterexample`) -/
-theorem head_nums (num : α → String) (hnum : ∀ x, LongNum (num x).toList) (k : Nat) (cls : List Char) (name : String)
-    (lo hi : α) (cnt : List Char) (n : Nat) (ws : List Char) (hcls : '\n' ∉ cls)
-    (hname : '\n' ∉ name.toList ∨ (¬ "xmin".toList <:+: name.toList ∧ ¬ "xmax".toList <:+: name.toList)) :
-    matchNum (tierHead num k cls name lo hi cnt n ++ ws).toArray (lit "xmin") true = some (num lo).toList.toArray ∧
-    matchNum (tierHead num k cls name lo hi cnt n ++ ws).toArray (lit "xmax") true = some (num hi).toList.toArray := by
-  have ix : 'x' ∉ idxL k ++ ['\n'] := by
-    simp [notMem_idxL 'x' k (by decide) (by decide) (by decide)]
-  have hu1 : '\n' ∉ tab2 ++ "class = ".toList := by
-    simp only [List.mem_append, not_or]; exact ⟨notMem_tab2 _ (by decide), by decide⟩
-  have hu3 : '\n' ∉ tab2 ++ ('n' :: ['a', 'm', 'e'] ++ eqL) := by
-    simp only [List.mem_append, not_or]; exact ⟨notMem_tab2 _ (by decide), by decide⟩
-  have hsk : 'x' ∉ [' ', '\n'] := by decide
-  have hsk2 : 'x' ∉ ' ' :: '\n' :: tab2 := by simp [notMem_tab2 'x' (by decide)]
-  have hnameSeg : ∀ (ks : List Char) (neg : Bool) (T : List Char), '"' ∉ 'x' :: ks → ks ≠ [] →
-      ('\n' ∉ name.toList ∨ ¬ ('x' :: ks) <:+: name.toList) →
-      scanL ('x' :: ks) (numAfter neg) (escapeL name.toList ++ '"' :: T) = scanL ('x' :: ks) (numAfter neg) T := by
-    intro ks neg T hq hne h
-    rcases h with h | h
-    · exact scanL_barrier 'x' ks neg _ _ hq (notMem_escape _ _ (by decide) h)
-    · apply scanL_free 'x' ks _ _ _ hq
-      intro hin
-      exact h (infix_escape_quote_free _ _ hq (by simp) hin)
-  have common : ∀ (ks : List Char) (neg : Bool) (T : List Char), '"' ∉ 'x' :: ks → ks ≠ [] →
-      ('\n' ∉ name.toList ∨ ¬ ('x' :: ks) <:+: name.toList) →
-      scanL ('x' :: ks) (numAfter neg) ((idxL k ++ ['\n']) ++ ((tab2 ++ "class = ".toList) ++ '"' :: (cls ++ '"' :: ([' ', '\n'] ++
-        ((tab2 ++ ('n' :: ['a', 'm', 'e'] ++ eqL)) ++ '"' :: (escapeL name.toList ++ '"' :: ((' ' :: '\n' :: tab2) ++ T))))))) =
-      scanL ('x' :: ks) (numAfter neg) T := by
-    intro ks neg T hq hne hnm
-    rw [scanL_skip 'x' ks _ _ _ ix, scanL_barrier 'x' ks neg _ _ hq hu1, scanL_barrier 'x' ks neg _ _ hq hcls,
-      scanL_skip 'x' ks _ _ _ hsk, scanL_barrier 'x' ks neg _ _ hq hu3, hnameSeg ks neg _ hq hne hnm,
-      scanL_skip 'x' ks _ _ _ hsk2]
-  have hn1 : '\n' ∉ name.toList ∨ ¬ ('x' :: ['m', 'i', 'n']) <:+: name.toList := hname.imp id (fun h => h.1)
-  have hn2 : '\n' ∉ name.toList ∨ ¬ ('x' :: ['m', 'a', 'x']) <:+: name.toList := hname.imp id (fun h => h.2)
+/-- what `_parseNormalTextgrid` keeps of a written tier header once the name is read (`header[nameMatch.end(1):]`, fix A33): the
+name's closing quote and the rows behind it -/
+def hdrRest (num : α → String) (lo hi : α) (cnt : List Char) (n : Nat) (ws : List Char) : List Char :=
+  '"' :: ' ' :: '\n' :: (numRowL tab2 "xmin".toList (num lo) ++ '\n' :: (numRowL tab2 "xmax".toList (num hi) ++ '\n' ::
+    (sizeRow cnt n ++ '\n' :: ws)))
+
+theorem hdrRest_shape (num : α → String) (lo hi : α) (cnt : List Char) (n : Nat) (ws : List Char) :
+    hdrRest num lo hi cnt n ws =
+      ('"' :: ' ' :: '\n' :: tab2) ++
+          (('x' :: ['m', 'i', 'n']) ++ (' ' :: '=' :: ' ' :: ((num lo).toList ++ ' ' :: '\n' :: (tab2 ++
+            (('x' :: ['m', 'a', 'x']) ++ (' ' :: '=' :: ' ' :: ((num hi).toList ++ ' ' :: '\n' ::
+              (sizeRow cnt n ++ '\n' :: ws)))))))) := by
+  have e1 : "xmin".toList = 'x' :: ['m', 'i', 'n'] := by rfl
+  have e2 : "xmax".toList = 'x' :: ['m', 'a', 'x'] := by rfl
+  simp only [hdrRest, numRowL, eqL, e1, e2, List.append_assoc, List.cons_append, List.nil_append]
+
+/-- `xmin` and `xmax` of the tier header are searched in the rest of the header BEHIND the name (fix A33), where they are the
+first occurrences of these words: no hypothesis on the name -/
+theorem rest_nums (num : α → String) (hnum : ∀ x, LongNum (num x).toList) (lo hi : α) (cnt : List Char) (n : Nat)
+    (ws : List Char) :
+    matchNum (hdrRest num lo hi cnt n ws).toArray (lit "xmin") true = some (num lo).toList.toArray ∧
+    matchNum (hdrRest num lo hi cnt n ws).toArray (lit "xmax") true = some (num hi).toList.toArray := by
+  have hsk : 'x' ∉ '"' :: ' ' :: '\n' :: tab2 := by simp [notMem_tab2 'x' (by decide)]
   constructor
-  · rw [matchNum_eq _ _ _ (by decide), lit_xmin, List.toList_toArray, tierHead_shape, common _ _ _ (by decide) (by decide) hn1]
-    rw [scanL_hit _ _ _ _ (by simp) (numAfter_written _ _ (hnum lo))]
+  · rw [matchNum_eq _ _ _ (by decide), lit_xmin, List.toList_toArray, hdrRest_shape,
+      scanL_after 'x' ['m', 'i', 'n'] _ _ (numAfter true) _ hsk (numAfter_written _ _ (hnum lo))]
     rfl
-  · rw [matchNum_eq _ _ _ (by decide), lit_xmax, List.toList_toArray, tierHead_shape, common _ _ _ (by decide) (by decide) hn2]
+  · rw [matchNum_eq _ _ _ (by decide), lit_xmax, List.toList_toArray, hdrRest_shape, scanL_skip 'x' _ _ _ _ hsk]
     rw [List.cons_append, scanL_fail _ _ _ _ (by simp [List.isPrefixOf])]
     have hC : 'x' ∉ ['m', 'i', 'n'] ++ (' ' :: '=' :: ' ' :: ((num lo).toList ++ ' ' :: '\n' :: tab2)) := by
       simp [notMem_num _ (hnum lo) 'x' (by decide), notMem_tab2 'x' (by decide)]
@@ -1159,6 +1146,17 @@ theorem head_nums (num : α → String) (hnum : ∀ x, LongNum (num x).toList) (
       intro T; simp only [List.append_assoc, List.cons_append, List.nil_append]
     rw [e1, scanL_after 'x' ['m', 'a', 'x'] _ _ (numAfter true) _ hC (numAfter_written _ _ (hnum hi))]
     rfl
+
+/-- the name row with the rest: ` = "esc" \n` followed by a quote-free tail yields the escaped text and the suffix that
+starts at its closing quote -/
+theorem textAfterR_dotall_tail (esc tail : List Char) (ht : '"' ∉ tail) :
+    textAfterR true (' ' :: '=' :: ' ' :: '"' :: (esc ++ '"' :: ' ' :: '\n' :: tail)) = some (esc, '"' :: ' ' :: '\n' :: tail) := by
+  unfold textAfterR
+  rw [headLen_eq, textAfter_dotall_tail esc tail ht]
+  simp only [Option.map_some, Option.some.injEq, Prod.mk.injEq, true_and]
+  have e : ' ' :: '=' :: ' ' :: '"' :: (esc ++ '"' :: ' ' :: '\n' :: tail) =
+      ([' ', '=', ' ', '"'] ++ esc) ++ ('"' :: ' ' :: '\n' :: tail) := by simp
+  rw [e, List.drop_left' (by simp only [List.length_append, List.length_cons, List.length_nil])]
 
 theorem tierHead_shapeN (num : α → String) (k : Nat) (cls : List Char) (name : String) (lo hi : α) (cnt : List Char) (n : Nat)
     (ws : List Char) :
@@ -1171,11 +1169,11 @@ theorem tierHead_shapeN (num : α → String) (k : Nat) (cls : List Char) (name 
   simp only [tierHead, joinNl, classRow, textRowL, eqL, row, q, e3, List.append_assoc, List.cons_append, List.nil_append]
 
 /-- `name` of the tier header, both classes, EVERY name (pattern with DOTALL since fix A32): the rest of the header holds no
-quote, so the greedy match ends at the name's closing quote -/
+quote, so the greedy match ends at the name's closing quote; what the reader goes on with is `hdrRest` (fix A33) -/
 theorem head_name (num : α → String) (hnum : ∀ x, LongNum (num x).toList) (k : Nat) (isI : Bool) (name : String) (lo hi : α)
     (cnt : List Char) (n : Nat) (ws : List Char) (hcnt : '"' ∉ cnt) (hws : '"' ∉ ws) :
-    matchText (tierHead num k (if isI then "IntervalTier".toList else "TextTier".toList) name lo hi cnt n ++ ws).toArray
-      (lit "name") true = some (escapeL name.toList).toArray := by
+    matchTextRest (tierHead num k (if isI then "IntervalTier".toList else "TextTier".toList) name lo hi cnt n ++ ws).toArray
+      (lit "name") true = some ((escapeL name.toList).toArray, (hdrRest num lo hi cnt n ws).toArray) := by
   have htail : '"' ∉ numRowL tab2 "xmin".toList (num lo) ++ '\n' :: (numRowL tab2 "xmax".toList (num hi) ++ '\n' ::
       (sizeRow cnt n ++ '\n' :: ws)) := by
     have t2 := notMem_tab2 '"' (by decide)
@@ -1188,7 +1186,7 @@ theorem head_name (num : α → String) (hnum : ∀ x, LongNum (num x).toList) (
       ⟨t2, hcnt, by decide, hd, by decide⟩, by decide, hws⟩
   have i_n : 'n' ∉ idxL k := notMem_idxL 'n' k (by decide) (by decide) (by decide)
   have t_n := notMem_tab2 'n' (by decide)
-  rw [matchText_eq _ _ _ (by decide), lit_name, List.toList_toArray, tierHead_shapeN]
+  rw [matchTextRest_eq _ _ _ (by decide), lit_name, List.toList_toArray, tierHead_shapeN]
   cases isI with
   | false =>
     have hA : 'n' ∉ (idxL k ++ ['\n']) ++ (tab2 ++ ("class = \"".toList ++ ("TextTier".toList ++ ('"' :: ' ' :: '\n' :: tab2)))) := by
@@ -1197,7 +1195,7 @@ theorem head_name (num : α → String) (hnum : ∀ x, LongNum (num x).toList) (
       simp only [List.mem_append, List.mem_cons, not_or]
       exact ⟨⟨i_n, by decide, by simp⟩, t_n, c1, c2, by decide, by decide, by decide, t_n⟩
     simp only [Bool.false_eq_true, if_false]
-    rw [scanL_after 'n' ['a', 'm', 'e'] _ _ (textAfter true) _ hA (textAfter_dotall_tail _ _ htail)]
+    rw [scanL_after 'n' ['a', 'm', 'e'] _ _ (textAfterR true) _ hA (textAfterR_dotall_tail _ _ htail)]
     rfl
   | true =>
     have e1 : (idxL k ++ ['\n']) ++ (tab2 ++ ("class = \"".toList ++ ("IntervalTier".toList ++ ('"' :: ' ' :: '\n' :: tab2)))) =
@@ -1216,7 +1214,7 @@ theorem head_name (num : α → String) (hnum : ∀ x, LongNum (num x).toList) (
     rw [e1, List.append_assoc, scanL_skip 'n' _ _ _ _ hA1, List.cons_append, scanL_fail _ _ _ _ (by
       have : "tervalTier".toList = 't' :: "ervalTier".toList := by rfl
       simp [List.isPrefixOf, this]),
-      scanL_after 'n' ['a', 'm', 'e'] _ _ (textAfter true) _ hA2 (textAfter_dotall_tail _ _ htail)]
+      scanL_after 'n' ['a', 'm', 'e'] _ _ (textAfterR true) _ hA2 (textAfterR_dotall_tail _ _ htail)]
     rfl
 
 /-! ## one tier -/
@@ -1293,16 +1291,6 @@ def entrySeps : AnyTier α → List (List Char)
 entry separator of the tier's own class (`intervals [`, `intervals[` in an interval tier; `points [`, `points[` in a
 point tier).  Plain substrings of the label itself: quote doubling does not matter, the patterns have no quote. -/
 def NoKwLong (t : AnyTier α) : Prop := ∀ s ∈ texts t, ∀ p ∈ itA :: itB :: entrySeps t, ¬ p <:+: s.toList
-
-/-- the name is a single line, or it contains neither the word `xmin` nor the word `xmax`.  (Until fix A32 a multi-line name
-could not be read at all: `name ?= ?"(.*)"` had no DOTALL.  What is left: the reader looks for the tier's `xmin` / `xmax` rows
-from the top of the tier header, so a LINE of a multi-line name that reads `xmin = 1` is taken for the span row —
-`parseLong_name_row_counterexample`, the same kind of defect as known finding A10, not a small patch.) -/
-def NameRowFree (t : AnyTier α) : Prop :=
-  '\n' ∉ (nameOf t).toList ∨ (¬ "xmin".toList <:+: (nameOf t).toList ∧ ¬ "xmax".toList <:+: (nameOf t).toList)
-
-/-- single-line names are fine -/
-theorem NameRowFree.of_line {t : AnyTier α} (h : '\n' ∉ (nameOf t).toList) : NameRowFree t := Or.inl h
 
 theorem headLines_free (pat : List Char) (num : α → String) (hnum : ∀ x, LongNum (num x).toList) (k : Nat) (cls : List Char)
     (name : String) (lo hi : α) (cnt : List Char) (n : Nat) (hq : q ∉ pat) (hb : '[' ∈ pat) (hcls : '[' ∉ cls)
@@ -1413,7 +1401,7 @@ theorem classAfter_written (b a : Bool) (rest : List Char) : classAfter (eqOf b 
 
 /-- **(b) one written interval tier is read back** from its `tierTxt` (the text between two `item [`) -/
 theorem readTier_iv (num : α → String) (hnum : ∀ x, LongNum (num x).toList) (k : Nat) (t : ITier α) (trail : List Char)
-    (htrail : ∀ c ∈ trail, c = ' ') (hkw : NoKwLong (.I t)) (hlab : StrippedLabels (.I t)) (hname : NameRowFree (.I t)) :
+    (htrail : ∀ c ∈ trail, c = ' ') (hkw : NoKwLong (.I t)) (hlab : StrippedLabels (.I t)) :
     readTierLong (tierBodyL num k (.I t) ++ trail).toArray = .ok (rawTier num (.I t)) := by
   have hl : ∀ e ∈ t.es, NoEdgeSpace e.l.toList := fun e he =>
     (pyStrip_eq_iff _).1 (hlab e.l (by simp only [labelsOf, List.mem_map]; exact ⟨e, he, rfl⟩))
@@ -1471,8 +1459,7 @@ theorem readTier_iv (num : α → String) (hnum : ∀ x, LongNum (num x).toList)
   have hn := head_name num hnum k true t.name t.lo t.hi "intervals".toList t.es.length ws (by decide)
     (fun hm => absurd (hwsp _ hm) (by decide))
   simp only [if_true] at hn
-  obtain ⟨hx1, hx2⟩ := head_nums num hnum k "IntervalTier".toList t.name t.lo t.hi "intervals".toList t.es.length ws
-    (by decide) hname
+  obtain ⟨hx1, hx2⟩ := rest_nums num hnum t.lo t.hi "intervals".toList t.es.length ws
   have hents : (rest.map List.toArray).mapM (readEntryLong true) = .ok (t.es.map fun e => [num e.s, num e.e, e.l]) := by
     rw [hrest]
     cases hes : t.es with
@@ -1481,7 +1468,7 @@ theorem readTier_iv (num : α → String) (hnum : ∀ x, LongNum (num x).toList)
       simp only [ivBodies]
       exact mapM_entries_iv num hnum trail htrail 0 e es (fun x hx => hl x (by rw [hes]; exact hx))
   simp only [readTierLong, hI, if_true, hsplit, hp, List.map_cons, List.headD_cons, List.drop_succ_cons, List.drop_zero,
-    hn, hx1, hx2, hents, need, bind, Except.bind, pure, Except.pure, unescape_name, toStr_toArray, rawTier]
+    hn, hx1, hx2, hents, need, needP, bind, Except.bind, pure, Except.pure, unescape_name, toStr_toArray, rawTier]
 
 /-! ## the class test `'class = "IntervalTier"' in tierTxt` cannot be fooled by a name or label
 
@@ -1811,7 +1798,7 @@ theorem class_not_in_point (num : α → String) (hnum : ∀ x, LongNum (num x).
 
 /-- **(b) one written point tier is read back** from its `tierTxt` -/
 theorem readTier_pt (num : α → String) (hnum : ∀ x, LongNum (num x).toList) (k : Nat) (t : PTier α) (trail : List Char)
-    (htrail : ∀ c ∈ trail, c = ' ') (hkw : NoKwLong (.P t)) (hlab : StrippedLabels (.P t)) (hname : NameRowFree (.P t)) :
+    (htrail : ∀ c ∈ trail, c = ' ') (hkw : NoKwLong (.P t)) (hlab : StrippedLabels (.P t)) :
     readTierLong (tierBodyL num k (.P t) ++ trail).toArray = .ok (rawTier num (.P t)) := by
   have hl : ∀ p ∈ t.ps, NoEdgeSpace p.l.toList := fun p hp =>
     (pyStrip_eq_iff _).1 (hlab p.l (by simp only [labelsOf, List.mem_map]; exact ⟨p, hp, rfl⟩))
@@ -1855,8 +1842,7 @@ theorem readTier_pt (num : α → String) (hnum : ∀ x, LongNum (num x).toList)
   have hn := head_name num hnum k false t.name t.lo t.hi "points".toList t.ps.length ws (by decide)
     (fun hm => absurd (hwsp _ hm) (by decide))
   simp only [Bool.false_eq_true, if_false] at hn
-  obtain ⟨hx1, hx2⟩ := head_nums num hnum k "TextTier".toList t.name t.lo t.hi "points".toList t.ps.length ws
-    (by decide) hname
+  obtain ⟨hx1, hx2⟩ := rest_nums num hnum t.lo t.hi "points".toList t.ps.length ws
   have hents : (rest.map List.toArray).mapM (readEntryLong false) = .ok (t.ps.map fun p => [num p.t, p.l]) := by
     rw [hrest]
     cases hes : t.ps with
@@ -1865,7 +1851,7 @@ theorem readTier_pt (num : α → String) (hnum : ∀ x, LongNum (num x).toList)
       simp only [ptBodies]
       exact mapM_entries_pt num hnum trail htrail 0 e es (fun x hx => hl x (by rw [hes]; exact hx))
   simp only [readTierLong, hI, Bool.false_eq_true, if_false, hsplit, hp, List.map_cons, List.headD_cons, List.drop_succ_cons,
-    List.drop_zero, hn, hx1, hx2, hents, need, bind, Except.bind, pure, Except.pure, unescape_name, toStr_toArray, rawTier]
+    List.drop_zero, hn, hx1, hx2, hents, need, needP, bind, Except.bind, pure, Except.pure, unescape_name, toStr_toArray, rawTier]
 
 /-! ## the whole file: no `\r\n`, the header fields, the split at `item [` -/
 
@@ -2159,26 +2145,25 @@ theorem mem_tierBodies (num : α → String) (k : Nat) (ts : List (AnyTier α)) 
 
 /-- **(b) any written tier is read back** from its `tierTxt` -/
 theorem readTier_written (num : α → String) (hnum : ∀ x, LongNum (num x).toList) (k : Nat) (t : AnyTier α) (trail : List Char)
-    (htrail : ∀ c ∈ trail, c = ' ') (hkw : NoKwLong t) (hlab : StrippedLabels t) (hname : NameRowFree t) :
+    (htrail : ∀ c ∈ trail, c = ' ') (hkw : NoKwLong t) (hlab : StrippedLabels t) :
     readTierLong (tierBodyL num k t ++ trail).toArray = .ok (rawTier num t) := by
   cases t with
-  | I t => exact readTier_iv num hnum k t trail htrail hkw hlab hname
-  | P t => exact readTier_pt num hnum k t trail htrail hkw hlab hname
+  | I t => exact readTier_iv num hnum k t trail htrail hkw hlab
+  | P t => exact readTier_pt num hnum k t trail htrail hkw hlab
 
 theorem mapM_tiers (num : α → String) (hnum : ∀ x, LongNum (num x).toList) (k : Nat) (t : AnyTier α) (ts : List (AnyTier α))
-    (hkw : ∀ x ∈ t :: ts, NoKwLong x) (hlab : ∀ x ∈ t :: ts, StrippedLabels x) (hname : ∀ x ∈ t :: ts, NameRowFree x) :
+    (hkw : ∀ x ∈ t :: ts, NoKwLong x) (hlab : ∀ x ∈ t :: ts, StrippedLabels x) :
     ((piecesL tabL (tierBodyL num k t) (tierBodies num (k + 1) ts) []).map List.toArray).mapM readTierLong =
       .ok ((t :: ts).map (rawTier num)) := by
   induction ts generalizing k t with
   | nil =>
     simp only [tierBodies, piecesL, List.map_cons, List.map_nil, List.mapM_cons, List.mapM_nil,
-      readTier_written num hnum k t [] (by simp) (hkw t (by simp)) (hlab t (by simp)) (hname t (by simp)), bind, Except.bind,
+      readTier_written num hnum k t [] (by simp) (hkw t (by simp)) (hlab t (by simp)), bind, Except.bind,
       pure, Except.pure]
   | cons t2 ts ih =>
     have h2 := ih (k + 1) t2 (fun x hx => hkw x (List.mem_cons_of_mem _ hx)) (fun x hx => hlab x (List.mem_cons_of_mem _ hx))
-      (fun x hx => hname x (List.mem_cons_of_mem _ hx))
     simp only [tierBodies, piecesL, List.map_cons, List.mapM_cons,
-      readTier_written num hnum k t tabL mem_tabL (hkw t (by simp)) (hlab t (by simp)) (hname t (by simp)), bind, Except.bind,
+      readTier_written num hnum k t tabL mem_tabL (hkw t (by simp)) (hlab t (by simp)), bind, Except.bind,
       pure, Except.pure] at h2 ⊢
     rw [h2]
 
@@ -2290,22 +2275,21 @@ theorem hdr4 (num : α → String) (lo hi : α) (n : Nat) :
 /-- **C01, long format, whole file**: praatio's long-format reader (`_parseNormalTextgrid`) applied to the text praatio's
 long-format emitter writes for ANY textgrid (any number of tiers, also none; any number of entries) returns exactly that
 textgrid — under the hypotheses: numerals match the reader's captured group `-?[\d.]+(?:[eE][-+]?\d+)?`; no name or label
-contains `item [`, `item[` or the entry separator of its own tier class (A10); labels are strip-invariant; a name is a single
-line or holds neither the word `xmin` nor `xmax`; no `\r\n` in names and labels.
+contains `item [`, `item[` or the entry separator of its own tier class (A10); labels are strip-invariant; no `\r\n` in names and
+labels.  Tier NAMES are otherwise arbitrary: blanks at either end, line breaks, lines that read like rows of the format.
 
 The hypotheses, classified: `hnum` — a property of the numeral renderer, true of CPython's `repr` / `"%d"` for every finite
 float, NEGATIVE ones and `-0.0` included (the sign used to be lost or to raise: defect A30, fixed — see `LongNum`);
 `hkw` — known reader defect A10, needed (`parseLong_keyword_counterexample`); `hlab` — enforced by the code: the
 `IntervalTier` / `PointTier` constructors strip every label, so no in-memory textgrid violates it (the reader strips labels
 too: an unstripped label would come back stripped, as in `parseShort_emit_strip`; tier NAMES need no such hypothesis here —
-this reader does not strip them, see the `#guard` on `" a "` below); `hname` (`NameRowFree`) — every single-line name and every
-multi-line name without the words `xmin` / `xmax` (multi-line names are read since fix A32: `parseLong_name_newline_regression`);
-what is still excluded is a defect of the A10 family, needed: `parseLong_name_row_counterexample` (a line of the name that reads
-`xmin = 1` is taken for the tier's span row);
+this reader does not strip them, see the `#guard` on `" a "` below); there is no hypothesis on names beyond `hkw`: "names are single-line"
+was needed until fix A32 (no DOTALL in the name pattern), its weakening `NameRowFree` until fix A33 (the tier's span rows were
+searched from the top of the header, through the name) — `parseLong_name_newline_regression`, `parseLong_name_row_regression`;
 `hcr` — C01 quantifies over texts without carriage returns (`NoCRLF` is weaker: a lone `\r` is allowed and survives at
 this level — `io.open`'s universal newlines turn it into `\n` when the file is read from disk). -/
 theorem parseLong_emit (num : α → String) (hnum : ∀ x, LongNum (num x).toList) (g : Tg α) (lo hi : α)
-    (hkw : ∀ t ∈ g.tiers, NoKwLong t) (hlab : ∀ t ∈ g.tiers, StrippedLabels t) (hname : ∀ t ∈ g.tiers, NameRowFree t)
+    (hkw : ∀ t ∈ g.tiers, NoKwLong t) (hlab : ∀ t ∈ g.tiers, StrippedLabels t)
     (hcr : ∀ t ∈ g.tiers, NoCRLF t) :
     Rd.parseLong (Txt.ofString (tgToLong num g lo hi)) = .ok (rawOf num g lo hi) := by
   have hfile : Txt.ofString (tgToLong num g lo hi) = (fileLong num g lo hi).toArray := by
@@ -2350,7 +2334,6 @@ theorem parseLong_emit (num : α → String) (hnum : ∀ x, LongNum (num x).toLi
     | cons t ts =>
       simp only [tierBodies]
       exact mapM_tiers num hnum 0 t ts (fun x hx => hkw x (by rw [hts]; exact hx)) (fun x hx => hlab x (by rw [hts]; exact hx))
-        (fun x hx => hname x (by rw [hts]; exact hx))
   unfold Rd.parseLong
   simp only [hrep, hsp, hst, if_true, hrest, hhl, hf3, hf4, hsp2, List.drop_succ_cons, List.drop_zero, htiers, bind,
     Except.bind, pure, Except.pure, toStr_toArray, rawOf]
@@ -2416,9 +2399,9 @@ theorem numN_long (n : Nat) : LongNum (numN n).toList := by
     simp [isDigitDot, Nat.isDigit_of_mem_toDigits (by decide) (by decide) hc]
 
 theorem sample_long_hyps :
-    (∀ t ∈ sampleTg.tiers, NoKwLong t) ∧ (∀ t ∈ sampleTg.tiers, StrippedLabels t) ∧ (∀ t ∈ sampleTg.tiers, NameRowFree t) ∧
+    (∀ t ∈ sampleTg.tiers, NoKwLong t) ∧ (∀ t ∈ sampleTg.tiers, StrippedLabels t) ∧
       (∀ t ∈ sampleTg.tiers, NoCRLF t) := by
-  refine ⟨?_, ?_, ?_, sample_hyps.2.2.2⟩
+  refine ⟨?_, ?_, sample_hyps.2.2.2⟩
   · intro t ht
     apply noKwLong_of_no_bracket
     simp only [sampleTg, List.mem_cons, List.not_mem_nil, or_false] at ht
@@ -2429,15 +2412,11 @@ theorem sample_long_hyps :
   · intro t ht s hs
     apply sample_hyps.2.2.1 t ht s
     cases t <;> simp only [labelsOf, texts, List.mem_cons] at hs ⊢ <;> exact Or.inr hs
-  · intro t ht
-    simp only [sampleTg, List.mem_cons, List.not_mem_nil, or_false] at ht
-    rcases ht with rfl | rfl <;> simp only [NameRowFree, nameOf] <;> decide
 
 /-- non-vacuity: the whole-file theorem applies to the two-tier sample of C01Full (quotes, doubled quotes, newline) -/
 theorem sample_long_read_back :
     Rd.parseLong (Txt.ofString (tgToLong numN sampleTg 0 5)) = .ok (rawOf numN sampleTg 0 5) :=
-  parseLong_emit numN numN_long sampleTg 0 5 sample_long_hyps.1 sample_long_hyps.2.1 sample_long_hyps.2.2.1
-    sample_long_hyps.2.2.2
+  parseLong_emit numN numN_long sampleTg 0 5 sample_long_hyps.1 sample_long_hyps.2.1 sample_long_hyps.2.2
 
 def longOK (ts : List (AnyTier Nat)) : Bool :=
   rawEq (Rd.parseLong (Txt.ofString (tgToLong numN ⟨ts, none, none⟩ 0 9))) (rawOf numN ⟨ts, none, none⟩ 0 9)
@@ -2462,8 +2441,8 @@ def ptT (name l : String) : AnyTier Nat := .P ⟨name, [⟨0, l⟩, ⟨1, "z"⟩
 -- multi-line names are read (A32, fixed) — leading / trailing line breaks, quotes at line ends, lines that look like other rows
 #guard longOK [ivT "a\nb" "x"] && longOK [ptT "\na\n" "x"] && longOK [ivT "a\"\nb\" \n" "x"] && longOK [ivT "a\ntext = \"u\"\nb" "x"]
 #guard longOK [ivT "a\nxmin = 1" "x"] && longOK [ivT "a\nxmax = 1\"" "x"] && longOK [ivT "a\nxmins\nb" "x"]
--- … except when a LINE of the name reads like the tier's own `xmin` / `xmax` row (hypothesis `NameRowFree`)
-#guard !longOK [ivT "xmin = 1\nb" "x"] && !longOK [ptT "a\n  xmax= -2.5e3 \nb" "x"]
+-- … also when a LINE of the name reads like the tier's own `xmin` / `xmax` row (A33, fixed: the rows are searched behind the name)
+#guard longOK [ivT "xmin = 1\nb" "x"] && longOK [ptT "a\n  xmax= -2.5e3 \nb" "x"] && longOK [ptT "xmin = 1\nxmax = 0\n" "x"]
 -- negative times (regression for A30, fixed): the sign of a negative number is captured, at tier and at entry level
 #guard (match Rd.parseLong (Txt.ofString (tgToLong (fun x : Int => toString x) ⟨[.P ⟨"p", [⟨-1, "x"⟩], -1, 9⟩], none, none⟩ (-1) 9)) with
   | .ok r => r.tiers.map (·.entries) == [[["-1", "x"]]] && r.tiers.map (·.xmin) == ["-1"] && r.xmin == "-1"
@@ -2492,7 +2471,7 @@ theorem badLong_parse : isParsingError (Rd.parseLong (Txt.ofString (tgToLong num
 /-- **the keyword hypothesis `NoKwLong` is needed (A10, long format)**: the one-tier textgrid whose only label is `item [`
 satisfies every other hypothesis of `parseLong_emit`, and the reader raises `ParsingError` on the file written for it -/
 theorem parseLong_keyword_counterexample :
-    (∀ t ∈ badLong.tiers, StrippedLabels t) ∧ (∀ t ∈ badLong.tiers, NameRowFree t) ∧ (∀ t ∈ badLong.tiers, NoCRLF t) ∧
+    (∀ t ∈ badLong.tiers, StrippedLabels t) ∧ (∀ t ∈ badLong.tiers, NoCRLF t) ∧
     (¬ ∀ t ∈ badLong.tiers, NoKwLong t) ∧
     Rd.parseLong (Txt.ofString (tgToLong numN badLong 0 1)) = .error .ParsingError ∧
     Rd.parseLong (Txt.ofString (tgToLong numN badLong 0 1)) ≠ .ok (rawOf numN badLong 0 1) := by
@@ -2501,17 +2480,13 @@ theorem parseLong_keyword_counterexample :
     cases h : Rd.parseLong (Txt.ofString (tgToLong numN badLong 0 1)) with
     | ok r => rw [h] at this; cases this
     | error e => rw [h] at this; cases e <;> first | rfl | cases this
-  refine ⟨?_, ?_, ?_, ?_, hp, by rw [hp]; intro h; cases h⟩
+  refine ⟨?_, ?_, ?_, hp, by rw [hp]; intro h; cases h⟩
   · intro t ht s hs
     simp only [badLong, List.mem_cons, List.not_mem_nil, or_false] at ht
     subst ht
     simp only [labelsOf, List.map_cons, List.map_nil, List.mem_cons, List.not_mem_nil, or_false] at hs
     subst hs
     rw [pyStrip_eq_iff]; exact noEdge_of_stripList _ (by decide)
-  · intro t ht
-    simp only [badLong, List.mem_cons, List.not_mem_nil, or_false] at ht
-    subst ht
-    simp only [NameRowFree, nameOf]; decide
   · intro t ht s hs
     simp only [badLong, List.mem_cons, List.not_mem_nil, or_false] at ht
     subst ht
@@ -2525,15 +2500,14 @@ theorem parseLong_keyword_counterexample :
 def nlNameTgL : Tg Nat := ⟨[.P ⟨"a\nb", [], 0, 1⟩], some 0, some 1⟩
 
 theorem nlName_hyps : (∀ t ∈ nlNameTgL.tiers, NoKwLong t) ∧ (∀ t ∈ nlNameTgL.tiers, StrippedLabels t) ∧
-    (∀ t ∈ nlNameTgL.tiers, NameRowFree t) ∧ (∀ t ∈ nlNameTgL.tiers, NoCRLF t) := by
-  refine ⟨?_, ?_, ?_, ?_⟩ <;> intro t ht <;> simp only [nlNameTgL, List.mem_cons, List.not_mem_nil, or_false] at ht <;> subst ht
+    (∀ t ∈ nlNameTgL.tiers, NoCRLF t) := by
+  refine ⟨?_, ?_, ?_⟩ <;> intro t ht <;> simp only [nlNameTgL, List.mem_cons, List.not_mem_nil, or_false] at ht <;> subst ht
   · apply noKwLong_of_no_bracket
     intro s hs
     simp only [texts, List.map_nil, List.mem_cons, List.not_mem_nil, or_false] at hs
     subst hs; decide
   · intro s hs
     simp [labelsOf] at hs
-  · exact Or.inr ⟨by simp only [nameOf]; decide, by simp only [nameOf]; decide⟩
   · intro s hs
     simp only [texts, List.map_nil, List.mem_cons, List.not_mem_nil, or_false] at hs
     subst hs; decide
@@ -2544,29 +2518,38 @@ exactly.  Before the fix the pattern did not cross the line break: `ParsingError
 praatio itself had written, while the short and both JSON formats kept the name. -/
 theorem parseLong_name_newline_regression :
     Rd.parseLong (Txt.ofString (tgToLong numN nlNameTgL 0 1)) = .ok (rawOf numN nlNameTgL 0 1) :=
-  parseLong_emit numN numN_long nlNameTgL 0 1 nlName_hyps.1 nlName_hyps.2.1 nlName_hyps.2.2.1 nlName_hyps.2.2.2
+  parseLong_emit numN numN_long nlNameTgL 0 1 nlName_hyps.1 nlName_hyps.2.1 nlName_hyps.2.2
 
 /-- one point tier named `xmin = 1⏎b` on [0, 2], no points -/
 def rowNameTg : Tg Nat := ⟨[.P ⟨"xmin = 1\nb", [], 0, 2⟩], some 0, some 2⟩
 
-/-- **the hypothesis `NameRowFree` is needed**: the reader looks for the tier's `xmin` row from the top of the tier header, and
-the first line of the written name row `name = "xmin = 1⏎b"` ends in `xmin = 1`: the tier's start is read as `1` instead of
-`0` — silently; name, end and everything else are right.  Replayed on praatio (after A32): `PointTier("xmin = 1\nb", [(0.5,
-"p")], 0, 2)` saved as "long_textgrid" (includeBlankSpaces False) and reopened has `minTimestamp == 0.5` (the constructor's
-`min(1, 0.5)`), from "short_textgrid" and "textgrid_json" `0.0`.  Same family as known finding A10 (a name that spells one
-of the reader's own rows); before A32 every multi-line name raised `ParsingError`. -/
-theorem parseLong_name_row_counterexample :
+theorem rowName_hyps : (∀ t ∈ rowNameTg.tiers, NoKwLong t) ∧ (∀ t ∈ rowNameTg.tiers, StrippedLabels t) ∧
+    (∀ t ∈ rowNameTg.tiers, NoCRLF t) := by
+  refine ⟨?_, ?_, ?_⟩ <;> intro t ht <;> simp only [rowNameTg, List.mem_cons, List.not_mem_nil, or_false] at ht <;> subst ht
+  · apply noKwLong_of_no_bracket
+    intro s hs
+    simp only [texts, List.map_nil, List.mem_cons, List.not_mem_nil, or_false] at hs
+    subst hs; decide
+  · intro s hs
+    simp [labelsOf] at hs
+  · intro s hs
+    simp only [texts, List.map_nil, List.mem_cons, List.not_mem_nil, or_false] at hs
+    subst hs; decide
+
+/-- **a name LINE that reads like the tier's span row, regression for A33 (fixed, d9005cc)**: the first line of the written name
+row `name = "xmin = 1⏎b"` ends in `xmin = 1`; the reader now looks for the tier's `xmin` / `xmax` rows BEHIND the name
+(`header[nameMatch.end(1):]`), and the whole-file theorem — which has no hypothesis on names beyond the A10 keywords any more —
+covers the file: the tier comes back with start `0`.  Before the fix the rows were searched from the top of the tier header and
+the tier's start was read as `1`, silently: `PointTier("xmin = 1\nb", [(0.5, "p")], 0, 2)` saved as "long_textgrid"
+(includeBlankSpaces False) and reopened had `minTimestamp == 0.5` (the constructor's `min(1, 0.5)`). -/
+theorem parseLong_name_row_regression :
+    Rd.parseLong (Txt.ofString (tgToLong numN rowNameTg 0 2)) = .ok (rawOf numN rowNameTg 0 2) ∧
     rawEq (Rd.parseLong (Txt.ofString (tgToLong numN rowNameTg 0 2)))
-      ⟨"0", "2", [⟨"TextTier", "xmin = 1\nb", "1", "2", []⟩]⟩ = true ∧
-    rawEq (Rd.parseLong (Txt.ofString (tgToLong numN rowNameTg 0 2))) (rawOf numN rowNameTg 0 2) = false ∧
-    ¬ (∀ t ∈ rowNameTg.tiers, NameRowFree t) := by
-  have hfile : Txt.ofString (tgToLong numN rowNameTg 0 2) = (fileLong numN rowNameTg 0 2).toArray := by
-    unfold Txt.ofString; rw [emitLong_toList]
-  rw [hfile, parseLong_eq, List.toList_toArray]
-  refine ⟨by decide +kernel, by decide +kernel, fun h => ?_⟩
-  rcases h (.P ⟨"xmin = 1\nb", [], 0, 2⟩) (by simp [rowNameTg]) with h1 | h1
-  · exact h1 (by simp only [nameOf]; decide)
-  · exact h1.1 (by simp only [nameOf]; exact ⟨[], " = 1\nb".toList, by decide⟩)
+      ⟨"0", "2", [⟨"TextTier", "xmin = 1\nb", "0", "2", []⟩]⟩ = true := by
+  have h := parseLong_emit numN numN_long rowNameTg 0 2 rowName_hyps.1 rowName_hyps.2.1 rowName_hyps.2.2
+  refine ⟨h, ?_⟩
+  rw [h]
+  decide +kernel
 
 /-! ## through the format sniffing of `parseTextgridStr` (non-JSON path) -/
 
@@ -2690,7 +2673,7 @@ def dropEmpty (includeEmpty : Bool) (r : RawTg) : RawTg :=
 label containing `ooTextFile short` sends the long file to the short-format reader, see the `#guard` below; replayed on
 praatio: `ValueError: could not convert string to float: 'xmin = 0'`; the others as for `parseLong_emit`.) -/
 theorem parseText_long_emit (num : α → String) (hnum : ∀ x, LongNum (num x).toList) (g : Tg α) (lo hi : α)
-    (hkw : ∀ t ∈ g.tiers, NoKwLong t) (hlab : ∀ t ∈ g.tiers, StrippedLabels t) (hname : ∀ t ∈ g.tiers, NameRowFree t)
+    (hkw : ∀ t ∈ g.tiers, NoKwLong t) (hlab : ∀ t ∈ g.tiers, StrippedLabels t)
     (hcr : ∀ t ∈ g.tiers, NoCRLF t) (hsn : ∀ t ∈ g.tiers, NoSniff t) (includeEmpty : Bool) :
     Rd.parseText (Txt.ofString (tgToLong num g lo hi)) includeEmpty = .ok (dropEmpty includeEmpty (rawOf num g lo hi)) := by
   have hfile : Txt.ofString (tgToLong num g lo hi) = (fileLong num g lo hi).toArray := by
@@ -2705,7 +2688,7 @@ theorem parseText_long_emit (num : α → String) (hnum : ∀ x, LongNum (num x)
       simp only [fileLong, List.append_assoc]; rfl⟩
   unfold Rd.parseText
   simp only [hA, hB, Bool.not_true, Bool.or_self, Bool.false_eq_true, if_false,
-    parseLong_emit num hnum g lo hi hkw hlab hname hcr, bind, Except.bind, dropEmpty]
+    parseLong_emit num hnum g lo hi hkw hlab hcr, bind, Except.bind, dropEmpty]
   cases includeEmpty <;> rfl
 
 /-- the short-format file through the sniffing: it is read with the short-format reader as long as it does not contain
